@@ -185,7 +185,8 @@ def gen_history(rng):
                 break
         assets.add_assets(prog, prng)
         for c in prog["classes"].values():
-            c.pop("base", None)
+            # (single inheritance stays: a subclass has a hash, URLs and cache entries of its own even when it inherits
+            # its parent's js / css text)
             c.pop("base2", None)
             if isinstance((c.get("media") or {}).get("extend"), list):
                 del c["media"]["extend"]
